@@ -82,6 +82,17 @@ class LoopSpec:
     class St:
         pass
 
+    def applies(self, ip, it):
+        """cut the loop only when the trip count is symbolic"""
+        if isinstance(it, Cell):
+            it = it.v
+        if isinstance(it, SSeq):
+            return ip.ctx.unique_int(z3.Length(it.e)) is None
+        from .values import GenObj
+        if isinstance(it, (GenObj, Obj)):
+            return True
+        return False
+
     def sequence(self, ip, fr, it):
         if isinstance(it, Cell):
             it = it.v
@@ -129,6 +140,10 @@ class Contract:
 
     def frame(self, h, cfg, a):
         return {}
+
+    def ensure_hints(self, h, cfg, a, r):
+        """sound facts (definition unfoldings, instances of proved lemmas) added to the ensures obligations"""
+        return []
 
     # hooks for the runner
     def callee(self, h, cfg):
